@@ -17,12 +17,14 @@ def run(ctx):
         dscommon.run_family(ctx, "C01Quick", fmt="text")
         dscommon.run_family(ctx, "C01Three", fmt="text", limit=300)
         dscommon.run_family(ctx, "C01Clim", fmt="text", limit=300)
+        dscommon.run_family(ctx, "C01Mid", fmt="text", limit=400)
         ctx.exhaustive = False
     else:
         dscommon.run_family(ctx, "C01Full", fmt="text", timeout_s=1500)
         dscommon.run_family(ctx, "C01NoObs", fmt="text")
         dscommon.run_family(ctx, "C01Three", fmt="text")
         dscommon.run_family(ctx, "C01Clim", fmt="text")
+        dscommon.run_family(ctx, "C01Mid", fmt="text")
         dscommon.run_family(ctx, "C01Quick", fmt="netcdf")
         ctx.exhaustive = True
     par.clean_workdirs()
